@@ -56,9 +56,13 @@ type world struct {
 	tie   string // id | reverse-id | seeded
 	async string // sync | promise | mixed
 	empty string // empty | typed-nil | untyped-nil ("" = empty)
-	seed  uint64
-	calls []getterCall
-	tc    int
+	// reply representation and the application's long-lived edge store (store-window)
+	replyAs string
+	store   []any
+	reuse   bool // keep the store of the previous request (follow-up requests)
+	seed    uint64
+	calls   []getterCall
+	tc      int
 }
 
 // getterReply implements the EdgeGetter contract: only edges with min ≤ time ≤ max; all of them for
@@ -104,6 +108,58 @@ func getterReply(D []TEdge, tie string, seed uint64, min, max time.Time, limit i
 	return append([]TEdge{}, in...), inRange
 }
 
+// How the getter hands its reply over: a freshly built []TEdge (""), or — "store-window" — a
+// sub-slice store[lo:hi] of the application's own long-lived, sorted []any edge store (the natural
+// way to serve ranges from an in-memory index; the reply then has spare capacity that belongs to the
+// store). The connection must treat replies as read-only: a follow-up request on the same store
+// (storeOracle) has to see the whole data set.
+var replyAsNames = []string{"", "store-window"}
+
+// buildStore: the data set in time order; equal timestamps in the order the tie policy dictates
+// (id, reverse id, or one seeded shuffle for the lifetime of the store).
+func buildStore(D []TEdge, tie string, seed uint64) []any {
+	s := append([]TEdge{}, D...)
+	r := hx.NewRand(seed ^ 0x5707e)
+	hx.Shuffle(r, s)
+	sort.SliceStable(s, func(i, j int) bool {
+		if s[i].T != s[j].T {
+			return s[i].T < s[j].T
+		}
+		switch tie {
+		case "id":
+			return strings.Compare(s[i].Id, s[j].Id) < 0
+		case "reverse-id":
+			return strings.Compare(s[i].Id, s[j].Id) > 0
+		}
+		return false // seeded: the shuffled order
+	})
+	out := make([]any, len(s))
+	for i, e := range s {
+		out[i] = e
+	}
+	return out
+}
+
+// storeWindow: the window of the store a range query asks for (the store is in time order, so the
+// range is contiguous; a limit keeps its head or its tail).
+func storeWindow(store []any, min, max time.Time, limit int) (win []any, inRange int) {
+	i := 0
+	for i < len(store) && timeOf(store[i].(TEdge).T).Before(min) {
+		i++
+	}
+	j := i
+	for j < len(store) && !timeOf(store[j].(TEdge).T).After(max) {
+		j++
+	}
+	inRange = j - i
+	if limit > 0 && j-i > limit {
+		j = i + limit
+	} else if limit < 0 && j-i > -limit {
+		i = j + limit
+	}
+	return store[i:j], inRange
+}
+
 func newWorld() *world {
 	w := &world{}
 	cfg := &apifu.Config{}
@@ -120,13 +176,24 @@ func newWorld() *world {
 		},
 		EdgeGetter: func(ctx graphql.FieldContext, minTime, maxTime time.Time, limit int) (any, error) {
 			reply, inRange := getterReply(w.D, w.tie, w.seed, minTime, maxTime, limit)
+			var window []any
+			if w.replyAs == "store-window" {
+				window, inRange = storeWindow(w.store, minTime, maxTime, limit)
+				reply = make([]TEdge, len(window))
+				for i, e := range window {
+					reply[i] = e.(TEdge)
+				}
+			}
 			byId, _ := getterReply(w.D, "id", w.seed, minTime, maxTime, limit)
 			n := len(w.calls)
 			w.calls = append(w.calls, getterCall{nanosOf(minTime), nanosOf(maxTime), limit, reply, byId, inRange})
 			promise := w.async == "promise" || (w.async == "mixed" && (w.seed>>uint(n%8))&1 == 1)
-			result := reply // non-nil, possibly empty
+			var result any = reply // non-nil, possibly empty
 			if len(reply) == 0 && (w.empty == "typed-nil" || w.empty == "untyped-nil") {
-				result = nil // a typed nil slice
+				result = []TEdge(nil) // a typed nil slice
+			}
+			if w.replyAs == "store-window" && len(window) > 0 {
+				result = window // the store's own memory, with the rest of the store as spare capacity
 			}
 			if promise {
 				return apifu.Go(ctx.Context, func() (any, error) { return result, nil }), nil
@@ -252,7 +319,21 @@ func (r TReq) build() (query string, vars map[string]any) {
 }
 
 func (w *world) serve(D []TEdge, tie, async, empty string, seed uint64, r TReq) (o servedObs) {
-	w.D, w.tie, w.async, w.empty, w.seed = D, tie, async, empty, seed
+	return w.serveAs(D, tie, async, empty, "", seed, r)
+}
+
+// followUp serves a request on the store the previous request left behind.
+func (w *world) followUp(D []TEdge, tie string, seed uint64, r TReq) servedObs {
+	w.reuse = true
+	defer func() { w.reuse = false }()
+	return w.serveAs(D, tie, "sync", "empty", "store-window", seed, r)
+}
+
+func (w *world) serveAs(D []TEdge, tie, async, empty, replyAs string, seed uint64, r TReq) (o servedObs) {
+	w.D, w.tie, w.async, w.empty, w.seed, w.replyAs = D, tie, async, empty, seed, replyAs
+	if replyAs == "store-window" && !w.reuse {
+		w.store = buildStore(D, tie, seed)
+	}
 	w.calls, w.tc = nil, 0
 	query, vars := r.build()
 	body, _ := json.Marshal(map[string]any{"query": query, "variables": vars})
